@@ -430,6 +430,9 @@ def gen_reg_case(rng, transports):
     if rng.random() < 0.45:
         c["R"] = rng.choice(names) if rng.random() > 0.04 else "nosuch"
         opts.append(["-R", c["R"]])
+        if rng.random() < 0.3:
+            # a second -R: the default changes while the words are read (the last one counts)
+            opts.append(["-R", rng.choice(names)])
     if rng.random() < 0.35:
         c["envtype"] = rng.choice(names) if rng.random() > 0.04 else "nosuch"
     rng.shuffle(opts)
@@ -457,13 +460,24 @@ def pinned_reg_cases(transports):
     out = []
     t1, t2, t3 = transports["r01"], transports["r02"], transports["r03"]
 
-    def mk(wargs, excl=(), l=None, R=None, envtype=None, loaded=("r01", "r02", "r03", "r07"), cmd=("true",), ls=None):
-        c = {"loaded": None, "env": {}, "excl": list(excl), "l": l, "R": R, "envtype": envtype,
+    def mk(wargs, excl=(), l=None, R=None, envtype=None, loaded=("r01", "r02", "r03", "r07"), cmd=("true",), ls=None,
+           pre_R=None, mid_R=None, pre_l=None):
+        """pre_R / pre_l: a -R / -l BEFORE the first -w; mid_R: a -R between the first and the second -w; R / l: behind
+        the last -w.  The LAST -R / -l of the command line is the one that counts, wherever the words stand"""
+        lastR = R if R is not None else (mid_R if mid_R is not None else pre_R)
+        lastl = l if (l is not None or ls) else pre_l
+        c = {"loaded": None, "env": {}, "excl": list(excl), "l": lastl, "R": lastR, "envtype": envtype,
              "loaded_ids": list(loaded), "words": [], "cmd": list(cmd), "pinned": True}
         argv = []
-        for ws in wargs:
+        if pre_R is not None:
+            argv += ["-R", pre_R]
+        if pre_l is not None:
+            argv += ["-l", pre_l]
+        for k_, ws in enumerate(wargs):
             argv += ["-w", ",".join(ws)]
             c["words"] += split_top(",".join(ws))
+            if k_ == 0 and mid_R is not None:
+                argv += ["-R", mid_R]
         if excl:
             argv += ["-x", ",".join(excl)]
         for x in (ls if ls is not None else ([l] if l is not None else [])):
@@ -540,6 +554,25 @@ def pinned_reg_cases(transports):
     for ws in (["@h1", "h2"], [t2 + ":@h1", "h1"], [":h1", "h2"], [t1 + "::h1"], ["u1@h1:x", "h2"], ["h1", "u1@"], ["h1", t2 + ":"],
                ["u1@u2@h1", "u2@h1"], [t2 + ":" + t3 + ":h1"], ["h1@", "h2"], ["u1@:h1"], [t1 + ":u1@h1:2", "h1:2"]):
         mk([ws], l="bob")
+    # 10. the defaults are read AFTER the whole command line: a word is registered with what IT says, never with (or
+    #     without, because it "repeats") the default in effect when it is read.  A typed / user@ word that repeats the
+    #     default of that moment (-R / -l before it, PDSH_RCMD_TYPE), then a default that changes (-R / -l behind it, or
+    #     between two -w) or a later word that names the same host differently
+    for d0, other in ((t1, t3), (t2, t1)):
+        for how in ("R-before", "env", "env+R-before"):
+            pre = d0 if "R-before" in how else None
+            ev = (d0 if how == "env" else other) if "env" in how else None
+            for ws in ([[d0 + ":h1", "h2"]], [[d0 + ":u1@h1", other + ":h1", "h2"]], [[d0 + ":h[1-2]"], [other + ":u2@h[2-3]"]],
+                       [["u1@h1", d0 + ":h1"], [other + ":h1", "h2"]], [[d0 + ":h1"], [d0 + ":u2@h1", other + ":h2"]]):
+                for after in (None, other, d0):
+                    mk(ws, pre_R=pre, envtype=ev, R=after)
+                if len(ws) == 2:
+                    mk(ws, pre_R=pre, envtype=ev, mid_R=other)
+                    mk(ws, pre_R=pre, envtype=ev, mid_R=other, R=d0)
+    for ws in ([["bob@h1", "h2"]], [["bob@h1"], ["u1@h1", "h2"]], [[t2 + ":bob@h[1-2]"], ["h2", "u2@h3"]]):
+        mk(ws, pre_l="bob")
+        mk(ws, pre_l="bob", l="u1")
+        mk(ws, pre_l="u1", l="bob")
     # more targets than one batch of threads (fanout 32): the rank is still the position in the list
     mk([["n[1-40]"]], excl=["n7"])
     mk([["u1@n[1-20]", t2 + ":n[15-45]"]], l="bob")
